@@ -24,6 +24,7 @@ CONSTANTS DocSeq,      \* documents, in the order in which a behaviour may first
           Lims,        \* limits of a read (0 = none)
           AOs,         \* active-only values of a read (subset of BOOLEAN)
           MaxPending,  \* bound on writes in flight
+          MaxInter,    \* bound on the actions that interleave with one split read
           Acts,        \* enabled action names (configs restrict the alphabet)
           HitSteps,    \* FALSE: a read answered from the cache alone (no effect on the cache) is not a step of a behaviour
           RecordReads  \* FALSE (model checking only): results of uninterrupted reads are not kept in the state,
@@ -179,7 +180,8 @@ Init ==
   /\ hist = <<>>
 
 SetCache(c) == logs' = c.logs /\ validFrom' = c.vf /\ cachedDocs' = c.docs
-Dirty(r) == IF r = NoRd THEN r ELSE [r EXCEPT !.clean = FALSE]
+Dirty(r) == IF r = NoRd THEN r ELSE [r EXCEPT !.clean = FALSE, !.n = @ + 1]
+Free == IF rd = NoRd THEN TRUE ELSE rd.n < MaxInter
 ActiveIn(d) == \E r \in truth : r.doc = d /\ ~r.rm
 Used == {e.doc : e \in ever}
 DocOK(d) == \E i \in 1..Len(DocSeq) : DocSeq[i] = d /\ \A j \in 1..(i - 1) : DocSeq[j] \in Used
@@ -215,7 +217,7 @@ GhostRead(s, lim, ao, rows) ==
 (* split read; rd holds the locals of GetChanges *)
 GhostReadBegin(s, lim, ao) ==
   LET st == ReadStart(Cur, s, lim, ao) IN
-  /\ rd' = [s |-> s, lim |-> lim, ao |-> ao, vf |-> st.vf, fc |-> st.fc, q |-> <<>>, stage |-> "query", clean |-> TRUE]
+  /\ rd' = [s |-> s, lim |-> lim, ao |-> ao, vf |-> st.vf, fc |-> st.fc, q |-> <<>>, stage |-> "query", clean |-> TRUE, n |-> 0]
   /\ res' = NoRes /\ UNCHANGED <<maxLen, minLen, truth, pending, nextSeq, hcs, ever>>
 GhostReadQuery(q) ==
   /\ rd' = [rd EXCEPT !.q = q, !.stage = "prepend"]
@@ -232,18 +234,18 @@ On(a) == a \in Acts
 
 Add(d, rm) ==
   LET e == Entry(nextSeq, d, rm) IN
-  On("Add") /\ WriteOK(d, rm) /\ ImplDeliver(e) /\ GhostWrite(e, TRUE)
+  On("Add") /\ Free /\ WriteOK(d, rm) /\ ImplDeliver(e) /\ GhostWrite(e, TRUE)
   /\ Step([a |-> "Add", seq |-> e.seq, doc |-> d, rm |-> rm])
 WriteLater(d, rm) ==
   LET e == Entry(nextSeq, d, rm) IN
-  On("WriteLater") /\ WriteOK(d, rm) /\ Cardinality(pending) < MaxPending /\ UNCHANGED impl /\ GhostWrite(e, FALSE)
+  On("WriteLater") /\ Free /\ WriteOK(d, rm) /\ Cardinality(pending) < MaxPending /\ UNCHANGED impl /\ GhostWrite(e, FALSE)
   /\ Step([a |-> "WriteLater", seq |-> e.seq, doc |-> d, rm |-> rm])
 Deliver(e) ==
-  On("WriteLater") /\ e \in pending /\ ImplDeliver(e) /\ GhostDeliver(e)
+  On("WriteLater") /\ Free /\ e \in pending /\ ImplDeliver(e) /\ GhostDeliver(e)
   /\ Step([a |-> "Deliver", seq |-> e.seq, doc |-> e.doc, rm |-> e.rm])
-Gap == On("Gap") /\ nextSeq <= MaxSeq /\ UNCHANGED impl /\ GhostGap /\ Step([a |-> "Gap"])
+Gap == On("Gap") /\ Free /\ nextSeq <= MaxSeq /\ UNCHANGED impl /\ GhostGap /\ Step([a |-> "Gap"])
 PruneAge(k) ==
-  On("PruneAge") /\ minLen < maxLen /\ Len(logs) > minLen /\ k \in 1..(Len(logs) - minLen)
+  On("PruneAge") /\ Free /\ minLen < maxLen /\ Len(logs) > minLen /\ k \in 1..(Len(logs) - minLen)
   /\ ImplPruneAge(k) /\ GhostQuiet /\ Step([a |-> "PruneAge", k |-> k])
 Purge(d) ==      \* assumptions: no write of d is in flight when it is purged (the code guards that race by TimeReceived),
                  \* and no query backfill is in flight (a prepend after the purge would re-insert the purged row: NOTES.md)
